@@ -69,6 +69,11 @@ func runCLI(c *run.Ctx, cs *Case) {
 			args = append([]string{"bars", "--snapshot", "--sort", cs.Spec, "-e", "{$ {1} k {2}}"}, match...)
 		case "table-rows":
 			args = append([]string{"table", "--snapshot", "-n", n, "--cols", "10", "--sort-rows", cs.Spec, "--sort-cols", "text", "-e", "{$ c {1} {2}}"}, match...)
+		case "table-both":
+			// both axes sorted with the same mode (two sorters that must not share what they learn from their keys):
+			// two columns whose names are dates in ISO layout, the rows in whatever layout the key set has
+			args = append([]string{"table", "--snapshot", "-n", n, "--cols", "10", "--sort-rows", cs.Spec, "--sort-cols", cs.Spec,
+				"-e", "{$ {if {eq {modi {2} 2} 0} 2022-09-03 2021-01-05} {1} {2}}"}, match...)
 		case "table-cols":
 			args = append([]string{"table", "--snapshot", "-n", "10", "--cols", n, "--sort-cols", cs.Spec, "--sort-rows", "text", "-e", "{$ {1} r {2}}"}, match...)
 		case "reduce", "reduce-sortexpr":
@@ -150,7 +155,7 @@ func parseCLI(target, out string, known map[string]bool) []string {
 				got = append(got, f[0])
 			}
 		}
-	case "table-rows", "reduce", "reduce-sortexpr":
+	case "table-rows", "table-both", "reduce", "reduce-sortexpr":
 		for i, ln := range lines {
 			if i == 0 {
 				continue // header
@@ -175,7 +180,7 @@ func parseCLI(target, out string, known map[string]bool) []string {
 	return got
 }
 
-var cliTargets = []string{"histo", "bars", "table-rows", "table-cols", "reduce", "reduce-sortexpr"}
+var cliTargets = []string{"histo", "bars", "table-rows", "table-cols", "reduce", "reduce-sortexpr", "table-both"}
 
 // cliKey: keys that survive the regex / expression / renderer unchanged and can be read back.
 func cliKey(k string) bool {
